@@ -33,6 +33,10 @@ CONSTANTS Tier,                    \* "quick" | "thorough" | "sim" | "neg" | "ne
                                     \* name come in the process's own (hash seed) order
           Buggy_DigestSkipsShared,  \* the persistent key walks an object met before only once
           \* (round 5)
+          \* (round 7)
+          Buggy_OptionsCrossed,     \* the decorator reads the wrong one of its options: it installs its cached
+                                    \* hash iff init=True - a class that writes its own __init__ is left with
+                                    \* Expression.__hash__, which cannot cache where dataclasses are frozen
           Buggy_VarsByName          \* the pickle of a compiled expression carries the NAMES of its listed
                                     \* variables; the consumer re-makes them as plain variables, which are not
                                     \* the leaves of an expression written over a leaf subclass
@@ -68,11 +72,13 @@ Variants == { << 3, 4 >>, << 4, 5 >>, << 3, 6 >>, << 22, 23 >>, << 22, 24 >>, <<
               << 101, 102 >>, << 104, 103 >>, << 103, 104 >>, << 106, 105 >>, << 105, 106 >>,
               << 108, 107 >>, << 107, 108 >>, << 109, 110 >>,
               \* (round 5) other leaf class / listed by name, as objects / listed, unlisted
-              << 117, 118 >>, << 120, 121 >>, << 123, 124 >>, << 124, 123 >>, << 125, 127 >>, << 129, 128 >> }
+              << 117, 118 >>, << 120, 121 >>, << 123, 124 >>, << 124, 123 >>, << 125, 127 >>, << 129, 128 >>,
+              \* (round 7) other field value below a hand-written __init__ / other leaf class
+              << 136, 138 >>, << 140, 147 >> }
 \* entries whose histories are enumerated deeper: a stock node with strings, a
 \* user dataclass node, a legacy node, a legacy subclass of a dataclass node,
 \* a node that does not cache its hash, a compiled expression
-Deep == {3, 22, 41, 48, 50, 46, 56, 68, 70, 74, 78, 84, 91, 98, 117, 125, 132}
+Deep == {3, 22, 41, 48, 50, 46, 56, 68, 70, 74, 78, 84, 91, 98, 117, 125, 132, 136, 142, 148}
 
 \* quick tier: histories one step deeper for one or two stock nodes per mechanism
 \* (all stock nodes share the generated pickling code) and for everything that
@@ -81,6 +87,18 @@ Deep == {3, 22, 41, 48, 50, 46, 56, 68, 70, 74, 78, 84, 91, 98, 117, 125, 132}
 Rep == {1, 3, 7, 16, 19, 22, 25, 26, 28, 32, 34, 38, 39, 40} \cup 41..77
        \cup {78, 79, 84, 91, 94, 98, 101, 104}
        \cup {117, 119, 123, 125, 126, 131, 132, 134}
+       \cup {136, 142}
+\* (round 7) one entry per way a user class can be declared (init x where its hash comes from,
+\* every kind of base under a hand-written __init__); each goes through EVERY configuration
+\* tuple (which of producer / consumer runs under -O, which hash seeds), not only the spread ones
+\* (the default declaration, init and hash left on, is what the rest of the catalogue is made of)
+OptionReps == {136, 139, 141, 142, 144, 146, 148}
+ASSUME \A init \in BOOLEAN : \A src \in {"gen", "own", "inherit"} :
+          << init, src >> = << TRUE, "gen" >> \/ \E i \in OptionReps : \E cls \in UserClassesIn(Cat[i].e) \cap DataclassUser :
+             UserDecl(cls).init = init /\ HashSource(cls) = src
+ASSUME \A b \in {"Expression", "plain", "stock", "user"} :
+          \E i \in OptionReps : \E cls \in UserClassesIn(Cat[i].e) \cap DataclassUser :
+             ~UserDecl(cls).init /\ UserDecl(cls).base = b
 
 Mk(pr, proto, ct, np, d, wrap) ==
     [ta |-> pr[1], tb |-> pr[2], proto |-> proto, cfg |-> CfgTuples[ct], np |-> np, d |-> d,
@@ -103,6 +121,7 @@ Insts ==
       \cup { Mk(Tw(i), (i + 2) % 6, Ct(i + 7), 3, 5, "") : i \in {3, 48} }
       \cup { Mk(Tw(i), (i + 4) % 6, Ct(i + 3), 2, 4, IF i % 2 = 0 THEN "dict" ELSE "set") : i \in Keyable }
       \cup { Mk(Tw(i), (i + 5) % 6, Ct(i + 8), 2, 5, w) : i \in {3, 50}, w \in {"dict", "set"} }
+      \cup { Mk(Tw(i), (i + ct) % 6, ct, 2, 4, "") : i \in OptionReps, ct \in 1..NCT }
       [] Tier = "thorough" ->
            { Mk(pr, proto, Ct(Spread(pr, proto)), 2, 5, "") : pr \in Twins, proto \in Protos }
       \cup { Mk(pr, proto, Ct(Spread(pr, proto)), 2, 5, "") : pr \in Variants, proto \in {0, 2, 5} }
@@ -112,11 +131,14 @@ Insts ==
       \cup { Mk(Tw(3), 4, 2, 3, 6, "") }
       \cup { Mk(Tw(i), proto, Ct(i + proto), 2, 4, w) : i \in Keyable, proto \in {0, 3, 5}, w \in {"dict", "set"} }
       \cup { Mk(Tw(i), (i + 2) % 6, Ct(i + 4), 2, 6, w) : i \in {3, 41, 50}, w \in {"dict", "set"} }
+      \cup { Mk(Tw(i), (i + ct) % 6, ct, 2, 5, "") : i \in OptionReps, ct \in 1..NCT }
+      \cup { Mk(Tw(i), (i + ct + 3) % 6, ct, 2, 4, w) : i \in OptionReps, ct \in 1..NCT, w \in {"dict", "set"} }
       [] Tier = "sim" ->
            UNION { { Mk(pr, proto, ct, 3, 14, w) :
                        proto \in Protos, ct \in 1..NCT,
                        w \in (IF pr[1] \in Keyable THEN Wraps ELSE {""}) } : pr \in Twins \cup Variants }
-      [] Tier = "neg" -> { Mk(Tw(3), 2, 1, 2, 4, ""), Mk(Tw(3), 2, 1, 2, 4, "dict"), Mk(Tw(59), 4, 2, 2, 3, "") }
+      [] Tier = "neg" -> { Mk(Tw(3), 2, 1, 2, 4, ""), Mk(Tw(3), 2, 1, 2, 4, "dict"), Mk(Tw(59), 4, 2, 2, 3, ""),
+                          Mk(Tw(136), 3, 1, 2, 3, "") }
       [] Tier = "neg2" -> { Mk(Tw(78), 2, 1, 2, 3, ""), Mk(Tw(91), 4, 2, 2, 3, ""), Mk(<< 98, 97 >>, 2, 1, 2, 4, ""),
                            Mk(Tw(126), 3, 3, 2, 3, "") }
 
@@ -143,7 +165,16 @@ ModelHash(p, k) == p * 1000 + k
 \* does hash() leave the value in the object's _hash_value slot?  (tuples and the
 \* user node with its own __hash__ do not cache)
 Caches(t) == LET e == Cat[t].e IN
-             ~(e.t = "Tup" \/ (e.t = "User" /\ e.cls = "C17NoHash"))
+             ~(e.t = "Tup" \/ (e.t = "User" /\ e.cls \in DataclassUser /\ HashSource(e.cls) = "own"))
+\* (round 7) dataclass nodes are frozen in a process started without -O: hash() of an object
+\* that contains an instance of a class left without a usable hash raises there (hash, ==, dict
+\* and set lookups all hash).  With the decorator as documented no catalogue class is such a one
+\* (CatalogueSane); under Buggy_OptionsCrossed the ones that write their own __init__ are.
+Frozen(p) == Cfgs[inst.cfg[p]].opt = 0
+ImplCannotHashTree(p, t) ==
+    /\ Frozen(p)
+    /\ \E cls \in UserClassesIn(Cat[t].e) \cap DataclassUser : ~HashProvided(cls, Buggy_OptionsCrossed)
+ImplCannotHash(p, o) == ImplCannotHashTree(p, heap[p][o].tree)
 \* an unpickled object whose field values sit under the wrong names is another object
 Mangled(p, o) == /\ Buggy_SetstateByPosition /\ heap[p][o].origin = "unpickled"
                  /\ UserClassesIn(Cat[heap[p][o].tree].e) \cap ReorderedUser # {}
@@ -176,12 +207,17 @@ ImplCall(p, o, args) ==
     ELSE CompiledValue(t, args)
 
 Do(c) ==
+    IF /\ c.a \in {"Hash", "Eq", "DictGet", "ContGet"}
+       /\ (ImplCannotHash(c.p, c.x) \/ (c.a # "Hash" /\ ImplCannotHash(c.p, c.y)))
+    THEN Raised(c.p, c.a) ELSE
     CASE c.a = "Build"    -> Build(c.p, c.x, TRUE, 0)
       [] c.a = "Hash"     -> Hash(c.p, c.x, ImplH(c.p, c.x), SlotAfter(c.p, c.x))
-      [] c.a = "Pickle"   -> Pickle(c.p, c.x, c.y, c.s, TRUE,
+      \* (making {o: 1} / frozenset({o}) hashes o, and so does re-making it from the pickle)
+      [] c.a = "Pickle"   -> Pickle(c.p, c.x, c.y, c.s, ~(c.s # "" /\ ImplCannotHash(c.p, c.x)),
                                     IF Buggy_PickleCarriesHash THEN heap[c.p][c.x].cached ELSE 0)
       \* a carried hash is restored; rebuilding a container hashes its new key
-      [] c.a = "Unpickle" -> Unpickle(c.p, c.x, ImplRecompiles(msgs[c.x].tree),
+      [] c.a = "Unpickle" -> Unpickle(c.p, c.x, ImplRecompiles(msgs[c.x].tree)
+                                                 /\ ~(msgs[c.x].wrap # "" /\ ImplCannotHashTree(c.p, msgs[c.x].tree)),
                                       IF msgs[c.x].carried # 0 THEN msgs[c.x].carried
                                       ELSE IF msgs[c.x].wrap # "" /\ Caches(msgs[c.x].tree)
                                            THEN ModelHash(c.p, Canon(msgs[c.x].tree)) ELSE 0)
